@@ -605,3 +605,143 @@ Proof.
   eapply plx_trans; [exact P1|]. eapply plx_trans; [apply plx_remove_long_expried|].
   eapply plx_add_expried; eauto.
 Qed.
+
+(* ------------------------------------------------------------------ automation *)
+Ltac plx_eq :=
+  match goal with
+  | |- plx _ _ _ _ ?s' => is_var s';
+      eapply plx_trans;
+      [| first [ eapply plx_process_data; eassumption
+               | eapply plx_push_lock_aof; eassumption
+               | eapply plx_push_unlock_aof; eassumption
+               | eapply plx_get_wait_lock; eassumption ] ]
+  end.
+
+(* peels the target state; leaves side goals `dropok X r`, `hdead X`, `?E r`, `?W r`, `?D r` *)
+Ltac plx_x := repeat first
+  [ plx_r1 | plx_eq
+  | match goal with |- plx _ _ _ _ (if ?b then _ else _) => destruct b end
+  | match goal with |- plx _ _ _ _ (remove_long_timeout _ _) => eapply plx_trans; [|apply plx_remove_long_timeout] end
+  | match goal with |- plx _ _ _ _ (remove_long_expried _ _ _) => eapply plx_trans; [|apply plx_remove_long_expried] end
+  | match goal with |- plx _ _ _ _ (add_timeout _ _) => eapply plx_trans; [|apply plx_add_timeout] end
+  | match goal with |- plx _ _ _ _ (unref _ _) => apply plx_r_unref end
+  | match goal with |- plx _ _ _ _ (free_lock _ _) => apply plx_r_free end
+  | match goal with |- plx _ _ _ _ (remove_lock _ _ _) => eapply plx_trans; [|apply plx_remove_lock] end
+  | match goal with |- plx _ _ _ _ (add_wait_lock _ _ _) => eapply plx_trans; [|apply plx_add_wait_lock] end ].
+
+(* side goals about deadness at an intermediate state, from a fact about an earlier state *)
+Ltac dead_from H := apply dead_dropok; eapply dead_keep; [|exact H]; keep_x.
+Ltac hdead_from H := eapply hdead_keep; [|exact H]; keep_x.
+
+Lemma getl_updl_same_l s r f : getl (updl s r f) r = match aget (store s) r with Some l => f l | None => dummy_lock end.
+Proof. unfold getl. rewrite aget_store_updl, N.eqb_refl. destruct (aget (store s) r); reflexivity. Qed.
+
+Lemma hdead_kill s r f : (forall l, l_timeouted l = true -> l_timeouted (f l) = true) -> hdead s -> hdead (updl s r f).
+Proof. apply hdead_updl. Qed.
+
+Lemma dead_updl_set s r f : (forall l, l_timeouted (f l) = true) -> dead (updl s r f) r.
+Proof.
+  intros Hf. unfold dead. rewrite getl_updl_same_l. destruct (aget (store s) r); auto.
+Qed.
+
+(* ------------------------------------------------------------------ units *)
+Lemma wake_grant_pl W s k r via s' ev :
+  wake_grant s k r via = (s', ev) -> core_flags (l_cmd (getl s r)) -> hdead s ->
+  plx (eq r) (eq r) W s s'.
+Proof.
+  intros H [Hack Hms] Hd.
+  unfold wake_grant in H. rewrite Hack in H. cbn [andb] in H.
+  set (s1 := updl s r (fun l => l <| l_timeouted := true |>)) in *.
+  assert (P1 : plx (eq r) (eq r) W s s1) by (subst s1; apply plx_updl_kill; reflexivity).
+  assert (D1 : dead s1 r) by (subst s1; apply dead_updl_set; intros; reflexivity).
+  assert (H1 : hdead s1) by (subst s1; apply hdead_kill; auto).
+  clearbody s1.
+  destruct (0 <? c_expried (l_cmd (getl s r))) eqn:Hexp.
+  - rewrite Hms in H. brk.
+    all: match goal with HE : add_expried ?X _ _ = _ |- _ =>
+           assert (PX : plx (eq r) (eq r) W s X);
+           [ plx_x; (eapply plx_trans; [|apply plx_add_lock]);
+             first [solve [plx_x] | solve [dead_from D1] | solve [hdead_from H1]]
+           | plx_x; eapply plx_trans; [exact PX|eapply plx_add_expried; [exact HE|reflexivity]] ] end.
+  - brk. all: plx_x.
+Qed.
+
+Lemma do_timeout_pl E W s r s' ev w :
+  do_timeout s r = (s', ev, w) -> hdead s -> plx (eq r) E W s s'.
+Proof.
+  unfold do_timeout. intros H Hd. destruct (aget (store s) r) as [l|] eqn:Hl; [|inv H; apply plx_refl].
+  destruct (l_timeouted l) eqn:Hto.
+  - inv H. assert (D0 : dead s r) by (unfold dead; rewrite (getl_some _ _ _ Hl); auto).
+    plx_x; apply dead_dropok; auto.
+  - set (s1 := updl s r (fun l => l <| l_timeouted := true |>)) in *.
+    assert (P1 : plx (eq r) E W s s1) by (subst s1; apply plx_updl_kill; reflexivity).
+    assert (D1 : dead s1 r) by (subst s1; apply dead_updl_set; intros; reflexivity).
+    assert (H1 : hdead s1) by (subst s1; apply hdead_kill; auto).
+    clearbody s1.
+    brk. all: plx_x.
+    all: first [solve [dead_from D1] | solve [hdead_from H1] | idtac].
+Qed.
+
+Lemma do_expried_pl D W s r s' ev w :
+  do_expried s r = (s', ev, w) -> hdead s -> dead s r -> plx D (eq r) W s s'.
+Proof.
+  unfold do_expried. intros H Hd D0. destruct (aget (store s) r) as [l|] eqn:Hl; [|inv H; apply plx_refl].
+  destruct (l_expried l) eqn:Hex.
+  - inv H. plx_x; apply dead_dropok; auto.
+  - destruct (negb (leader s) && l_isaof l && _).
+    + brk. match goal with HE : add_expried _ _ _ = _ |- _ => eapply plx_trans; [|eapply plx_add_expried; [exact HE|reflexivity]] end.
+      plx_x.
+    + set (s1 := updl s r (fun l => l <| l_expried := true |>)) in *.
+      assert (P1 : plx D (eq r) W s s1) by (subst s1; apply plx_updl; intros l0 L; exact L).
+      assert (D1 : dead s1 r) by (subst s1; apply dead_updl; auto).
+      assert (H1 : hdead s1) by (subst s1; apply hdead_kill; auto).
+      clearbody s1.
+      brk. all: plx_x.
+      all: first [solve [dead_from D1] | solve [hdead_from H1] | idtac].
+Qed.
+
+Lemma release_hold_pl D E W s k conn c r depth s' ev :
+  release_hold s k conn c r depth = (s', ev) -> hdead s -> dead s r -> plx D E W s s'.
+Proof.
+  unfold release_hold. intros H Hd D0.
+  set (s1 := updl s r (fun l => l <| l_expried := true |>)) in *.
+  assert (P1 : plx D E W s s1) by (subst s1; apply plx_updl; intros l0 L; exact L).
+  assert (D1 : dead s1 r) by (subst s1; apply dead_updl; auto).
+  assert (H1 : hdead s1) by (subst s1; apply hdead_kill; auto).
+  clearbody s1.
+  brk. all: plx_x.
+  all: first [solve [dead_from D1] | solve [hdead_from H1] | idtac].
+  all: let n := numgoals in idtac n.
+Qed.
+
+
+Lemma cancel_wait_lock_pl E W s conn c s' ev w :
+  cancel_wait_lock s conn c = (s', ev, w) -> hdead s ->
+  plx (fun x => cancel_target s c = Some x) E W s s'.
+Proof.
+  intros H Hd. unfold cancel_wait_lock in H. fold (cancel_target s c) in H.
+  destruct (cancel_target s c) as [r|] eqn:Hw.
+  2:{ inv H. plx_x. }
+  set (s1 := updl s r (fun l => l <| l_timeouted := true |>)) in *.
+  assert (P1 : plx (fun x => Some r = Some x) E W s s1) by (subst s1; apply plx_updl_kill; reflexivity).
+  assert (D1 : dead s1 r) by (subst s1; apply dead_updl_set; intros; reflexivity).
+  assert (H1 : hdead s1) by (subst s1; apply hdead_kill; auto).
+  clearbody s1.
+  brk. all: plx_x.
+  all: first [solve [dead_from D1] | solve [hdead_from H1] | idtac].
+Qed.
+
+Lemma unlock_step_pl E W s conn c s' ev w :
+  unlock_step s conn c = (s', ev, w) -> hdead s ->
+  plx (fun x => cancel_target s c = Some x) E W s s'.
+Proof.
+  intros H Hd. unfold unlock_step in H. cbv beta zeta in H.
+  brk.
+  all: try match goal with HC : cancel_wait_lock _ _ _ = _ |- _ => eapply cancel_wait_lock_pl; eauto end.
+  all: try match goal with HR : release_hold _ _ _ _ ?r _ = _ |- _ =>
+         eapply plx_trans; [|eapply release_hold_pl; [exact HR| |]] end.
+  all: plx_x.
+  all: try solve [hdead_from Hd].
+  all: try solve [eapply dead_keep; [|apply Hd; eexists _, m; split; [eassumption|first [eapply get_locked_lock_href; eassumption | left; eassumption]]]; keep_x].
+  all: let n := numgoals in idtac n.
+Qed.
